@@ -7,9 +7,18 @@
   (scalar / list dispatch), `isCausal` (acdc.CausalChecker).
   All theorems are over ALL rational arguments / parameters / expressions / lists (no sampling).
 
-  PARTIAL by nature (not exhibited by a Lean model, see DESIGN §3 C17): floating-point rounding,
-  lambdify's code generation, exp/sin/cos/Bessel, the SymPy `limit` fallbacks, and the clause
-  "sampled responses converge as the step shrinks".
+  PARTIAL by nature (see DESIGN §3 C17):
+    * `Option Rat` exhibits rational values only: for the sinc family the `agree_*` theorems have content at the integer /
+      grid points (`none = none` elsewhere); away from them `sinc_family_same_tail` says that both code paths are the same
+      expression in the uninterpreted sine tail, and the numbers are compared against mpmath by the harness;
+    * exp/sin/cos/Bessel, floating-point rounding (beyond the bit-for-bit straight-line TESTS of Props/C17Float.lean) and
+      lambdify's code generation are not modelled;
+    * the clause "sampled responses converge as the step shrinks" has NO convergence theorem: Props/C17Sim.lean and
+      C17Resp.lean prove what one step / one run / one difference equation computes (element laws for the actual step
+      size, local exactness and defect identities, lag-indexed convolution, start-time invariance); the limit dt -> 0
+      is compared harness-side on refined grids against the symbolic response;
+    * `array_is_map_scalar` is a model remark (the model is defined that way because the code is a per-element loop).
+  The evaluate() limit fallbacks are modelled for rational functions in Props/C17Limit.lean.
 -/
 import Lcapy.Proofs.SpecialFnBase
 import Lcapy.Proofs.PsincAnchor
@@ -108,24 +117,35 @@ theorem agree_dtsign (x : Rat) : Agree .dtsign x := by
     S.dtsign, S.unitstep]
   constructor <;> pw_arith
 
-theorem agree_sincn (x : Rat) : Agree .sincn x := by
+/-! #### the sinc family.  CONTENT WARNING (audit F10): `Option Rat` exhibits rational values only.  sin(pi x)/(pi x) is
+irrational at every non-integer rational and sin(x)/x at every non-zero rational, so there all three sides are `none` and
+`Agree` reads `none = none`: the four theorems below have content at the INTEGER points only (sincu: at 0 only; psinc: at
+the integers and where M x is an integer), and `regular` excludes the other points from `expr_agree`.  What can be said at
+the other points without interpreting sin is `sinc_family_same_tail` / `psinc_same_tail` below: both code paths are the
+same expression in the uninterpreted transcendental tail.  Numerically those points are compared against mpmath
+(harness, `sinc-family-vs-mpmath`). -/
+
+/-- sincn: value 1 at 0 and 0 at the other integers on both paths (`none = none` at every non-integer) -/
+theorem agree_sincn_at_integers (x : Rat) : Agree .sincn x := by
   simp only [Agree, numericDef, symbolicDef, spec, numFor_sincn, num_sincn, sym_sincn, sinPiOverPi, isInt,
     Lcapy.Spec.SpecialFn.isInt, if_true]
   constructor <;> pw_arith
 
-theorem agree_sincu (x : Rat) : Agree .sincu x := by
+/-- sincu: value 1 at 0 on both paths (`none = none` at every other rational: sin(x)/x is transcendental there) -/
+theorem agree_sincu_at_zero (x : Rat) : Agree .sincu x := by
   simp only [Agree, numericDef, symbolicDef, spec, numFor_sincu, num_sincu, sym_sincu, sinOver, if_true]
   constructor <;> pw_arith
 
 /-- the name `sinc` of a parsed string: normalised on both paths (finding: symbolic side was SymPy's
-unnormalised sinc) -/
-theorem agree_sinc (x : Rat) : Agree .sinc x := by
+unnormalised sinc).  Content at the integers only (`none = none` elsewhere). -/
+theorem agree_sinc_at_integers (x : Rat) : Agree .sinc x := by
   simp only [Agree, numericDef, symbolicDef, spec, numFor_sinc, num_sinc, sym_parsedSinc, sym_sincn, sinPiOverPi, isInt,
     Lcapy.Spec.SpecialFn.isInt, if_true]
   constructor <;> pw_arith
 
 /-- psinc(M, ·) for a positive integer M at EVERY rational point: at an integer n both paths give the
-limit (-1)^(n (M-1)) (findings F16 and numeric-psinc), elsewhere both leave the rational world together -/
+limit (-1)^(n (M-1)) (findings F16 and numeric-psinc), and 0 where M x is an integer and x is not; at every other
+rational the statement is `none = none` (audit F10: content at those grid points only; see `psinc_same_tail`) -/
 theorem agree_psinc (M x : Rat) (hdom : inDomain (.psinc M) = true) : Agree (.psinc M) x := by
   simp only [inDomain, Bool.and_eq_true, decide_eq_true_eq, specIsInt_iff] at hdom
   obtain ⟨hMi, hMpos⟩ := hdom
@@ -177,6 +197,46 @@ theorem agree_psinc (M x : Rat) (hdom : inDomain (.psinc M) = true) : Agree (.ps
         Lcapy.Spec.SpecialFn.isInt, isInt]
       simp [hx, not_le.mpr hm]
 
+section tails
+/- the transcendental tails are kept UNINTERPRETED in this section: nothing below can depend on how `sinPiOverPi`,
+`sinOver`, `psincExact` are defined, so the statements hold for every interpretation of sin(pi x)/(pi x), sin(x)/x and
+sin(M pi x)/(M sin(pi x)) -/
+attribute [local irreducible] sinPiOverPi sinOver psincExact
+
+/-- **sinc_family_same_tail** (the non-trivial content away from the integers): at EVERY rational x the numeric definition
+handed to lambdify and the value of exact substitution are the same expression in the uninterpreted tail: the explicit
+value 1 at x = 0 (the removable point) and sin(pi x)/(pi x) resp. sin(x)/x elsewhere, for `sincn`, `sincu` and the parsed
+name `sinc`. -/
+theorem sinc_family_same_tail (x : Rat) :
+    numericDef .sincn x = (if x = 0 then some 1 else sinPiOverPi x) ∧
+    symbolicDef .sincn x = (if x = 0 then some 1 else sinPiOverPi x) ∧
+    numericDef .sincu x = (if x = 0 then some 1 else sinOver x) ∧
+    symbolicDef .sincu x = (if x = 0 then some 1 else sinOver x) ∧
+    numericDef .sinc x = (if x = 0 then some 1 else sinPiOverPi x) ∧
+    symbolicDef .sinc x = (if x = 0 then some 1 else sinPiOverPi x) := by
+  simp only [numericDef, symbolicDef, numFor_sincn, num_sincn, numFor_sincu, num_sincu, numFor_sinc, num_sinc, sym_sincn,
+    sym_sincu, sym_parsedSinc, if_true, and_self]
+
+/-- hence numeric = symbolic as functions of the tail, at every rational point, integer or not -/
+theorem sinc_family_paths_coincide (x : Rat) :
+    numericDef .sincn x = symbolicDef .sincn x ∧ numericDef .sincu x = symbolicDef .sincu x ∧
+    numericDef .sinc x = symbolicDef .sinc x := by
+  obtain ⟨a, b, c, d, e, f⟩ := sinc_family_same_tail x
+  exact ⟨a.trans b.symm, c.trans d.symm, e.trans f.symm⟩
+
+/-- psinc at a non-integer point: the numeric path is the FLOAT quotient `psincFloat`, the symbolic path the exact
+quotient `psincExact` of the same two sines; `psincFloat` is by definition `psincExact` there (the hand-modelled claim that
+the float quotient of two well-conditioned sines is the exact one up to rounding, validated against mpmath) -/
+theorem psinc_same_tail (M x : Rat) (hx : isInt x = false) :
+    numericDef (.psinc M) x = psincFloat M x ∧ symbolicDef (.psinc M) x = psincExact M x := by
+  have hx0 : x ≠ 0 := by
+    intro h; rw [h] at hx; simp [isInt] at hx
+  simp only [numericDef, symbolicDef, numFor_psinc, num_psinc, sym_psinc, hx, hx0, if_true, if_false,
+    Bool.false_eq_true, false_and, and_self]
+
+example : isInt (1/3 : Rat) = false := by decide +kernel
+end tails
+
 /-- the Spec's value of psinc at an integer point -/
 theorem spec_psinc_int (m n : Int) (hm : 0 < m) :
     spec (.psinc (m : Rat)) (n : Rat) = some (S.negOnePowInt (n * (m - 1))) := by
@@ -203,7 +263,9 @@ example : Real.sin (Real.pi * (1/2)) ≠ 0 := by
 
 /-- **special_fn_agree**: for every function of the table, every parameter in the documented domain and every
 rational `x` that is not a discontinuity: the numeric definition used by `evaluate`, the value of exact
-substitution, and the documented value coincide (as rationals, or all three leave the rational world). -/
+substitution, and the documented value coincide (as rationals, or all three leave the rational world).
+For the piecewise-rational functions this is a statement at every point; for the sinc family (sincn, sincu, sinc, psinc) it
+has content at the integer / grid points only (`none = none` elsewhere, audit F10; see `sinc_family_same_tail`). -/
 theorem special_fn_agree (f : Fn) (x : Rat) (hd : disc f x = false) (hdom : inDomain f = true) :
     numericDef f x = spec f x ∧ symbolicDef f x = spec f x := by
   cases f with
@@ -219,9 +281,9 @@ theorem special_fn_agree (f : Fn) (x : Rat) (hd : disc f x = false) (hdom : inDo
   | unitimpulse => exact agree_unitimpulse x
   | dtrect => exact agree_dtrect x
   | dtsign => exact agree_dtsign x
-  | sincn => exact agree_sincn x
-  | sincu => exact agree_sincu x
-  | sinc => exact agree_sinc x
+  | sincn => exact agree_sincn_at_integers x
+  | sincu => exact agree_sincu_at_zero x
+  | sinc => exact agree_sinc_at_integers x
   | psinc M => exact agree_psinc M x hdom
 
 -- non-vacuity: a regular point, and the hypotheses exclude exactly the points where the paths differ
@@ -339,8 +401,14 @@ theorem guard_transparent (a : E) (x : Rat) (hx : 0 ≤ x) (ha : evalNumeric a x
 
 /-! ### array evaluation is the map of scalar evaluation -/
 
-/-- **array_is_map_scalar**: evaluating over a non-empty list yields an array exactly when every element evaluates,
-as a scalar, to a number -- and then the array is element-wise the scalar results (same mask, same definitions). -/
+/-- **array_is_map_scalar** -- a MODEL REMARK, not a property theorem (audit F11): `evaluateArg` is DEFINED as the `mapM` of
+`funcScalar` because `evaluate_expr` is `np.array([complex(func(arg0)) for arg0 in arg])` (one scalar `func` call per
+element, NOT a vectorised lambdify call; the first element is evaluated once more beforehand "to flush out weirdness"), so
+this is the characterisation of `mapM`: an array exactly when every element evaluates to a number, element-wise the scalar
+results.  That the CODE has this shape -- and hence the clause "array evaluation agrees element-wise with scalar
+evaluation" -- is carried by the correspondence / oracle streams (list, tuple, ndarray against the scalar calls, seeded
+C17-2), and, where the two routes really differ (Python float vs NumPy scalar: different fallback branches), by
+`C17Limit.scalar_array_same_outcome`. -/
 theorem array_is_map_scalar (c : Bool) (e : E) (xs : List Rat) (vs : List Rat) :
     evaluateArg c e (.list xs) = .array vs ↔ xs ≠ [] ∧ xs.map (funcScalar c e) = vs.map Out.val := by
   cases xs with
